@@ -59,7 +59,11 @@ G6 == [g : {"cycle"}, len : 1..L, nvals : 1..3, grouped : BOOLEAN, twice : BOOLE
 G7 == {x \in [g : {"nest"}, outer : 1..3, inner : 1..3, sig : {"break", "continue"}, at : 1..3] : x.at <= x.inner}
 \* a loop containing a cycle is itself executed several times (nested in another loop): each execution starts afresh
 G8 == [g : {"cycnest"}, outer : 1..3, len : 1..L, nvals : 2..3, grouped : BOOLEAN]
-Cases == G1 \cup G2 \cup G3 \cup G4 \cup G5 \cup G6 \cup G7 \cup G8
+\* break / continue inside tablerow: the cell of the item is still closed (and its row, when it ends there)
+\* (a break in the middle of a row leaves the row open: what follows is not decided, such cases are not generated)
+G9 == {x \in [g : {"rowsig"}, len : 1..4, cols : {None, 1, 2, 3}, at : 1..4, sig : {"break", "continue"}] :
+         x.at <= x.len /\ (x.sig = "continue" \/ x.at = x.len \/ (x.cols # None /\ x.at % x.cols = 0))}
+Cases == G1 \cup G2 \cup G3 \cup G4 \cup G5 \cup G6 \cup G7 \cup G8 \cup G9
 
 \* a modifier is written as a literal or as a variable holding the number
 OV == <<111, 102>>
@@ -90,6 +94,11 @@ ProgOf(x) ==
     [] x.g = "tablerow" ->
          << [t |-> "for", tag |-> "tablerow", var |-> X, coll |-> Var(A), body |-> <<Ob(Var(X))>>]
             @@ (IF x.cols # None THEN [cols |-> Lit(IntV(x.cols))] ELSE <<>>) @@ ModFields(x) >>
+    [] x.g = "rowsig" ->
+         << [t |-> "for", tag |-> "tablerow", var |-> X, coll |-> Var(A),
+             body |-> << [t |-> "if", branches |-> << [c |-> [t |-> "cmp", op |-> "==", a |-> Var(X), b |-> Lit(IntV(x.at))],
+                                                       body |-> << [t |-> x.sig] >>] >>], Ob(Var(X)) >>]
+            @@ (IF x.cols # None THEN [cols |-> Lit(IntV(x.cols))] ELSE <<>>), T(<<124>>), Ob(Var(X)) >>
     [] x.g = "coll" ->
          << [t |-> "for", tag |-> "for", var |-> X, coll |-> Var(A),
              body |-> <<T(<<91>>), Ob([t |-> "idx", e |-> Var(X), i |-> Lit(IntV(0))]), Colon,
@@ -122,7 +131,7 @@ MapN(n) == MapV([i \in 1..n |-> << <<106 + i>>, IntV(i) >>])        \* keys k, l
 EnvOf2(x) ==
   CASE x.g = "grid" /\ x.asvar -> << <<A, Arr(Ints(x.len))>>, <<X, Str(<<111>>)>>, <<OV, IntV(IF x.off = None THEN 0 ELSE x.off)>>, <<LV, IntV(IF x.lim = None THEN 0 ELSE x.lim)>> >>
     [] x.g = "range" /\ x.asvar -> << <<OV, IntV(x.lo)>>, <<<<104, 105>>, IntV(x.hi)>> >>
-    [] x.g \in {"grid", "signal", "tablerow", "cycle", "cycnest"} -> << <<A, Arr(Ints(x.len))>>, <<X, Str(<<111>>)>> >>
+    [] x.g \in {"grid", "signal", "tablerow", "cycle", "cycnest", "rowsig"} -> << <<A, Arr(Ints(x.len))>>, <<X, Str(<<111>>)>> >>
     [] x.g = "coll" -> (CASE x.coll = "nil" -> << <<A, Nil>> >>
                           [] x.coll = "undef" -> <<>>
                           [] x.coll = "empty" -> << <<A, Arr(<<>>)>> >>
@@ -169,6 +178,14 @@ DeclOut(x) ==
                         \o TdOpen(((k - 1) % cols) + 1) \o IntText(sel[k].v) \o TdClose
                         \o (IF k % cols = 0 \/ k = n THEN TrClose ELSE <<>>)
          IN  Flatten([k \in 1..n |-> cell(k)])
+    [] x.g = "rowsig" ->
+         LET n == x.len
+             cols == IF x.cols = None THEN n + 1 ELSE x.cols
+             last == IF x.sig = "break" THEN x.at ELSE n
+             cell(k) == (IF (k - 1) % cols = 0 THEN TrOpen(((k - 1) \div cols) + 1) ELSE <<>>)
+                        \o TdOpen(((k - 1) % cols) + 1) \o (IF k = x.at THEN <<>> ELSE IntText(k)) \o TdClose
+                        \o (IF k % cols = 0 \/ k = n THEN TrClose ELSE <<>>)
+         IN  Flatten([k \in 1..last |-> cell(k)]) \o <<124, 111>>
     [] x.g = "coll" ->
          (CASE x.coll \in {"nil", "undef", "empty", "map0", "nilmap", "nilslice", "nilptr", "dropnil", "dropempty"} -> <<69>>
             [] x.coll = "map1" -> <<91, 107, 58>> \o IntText(1) \o <<58>> \o IntText(1) \o <<93>>
@@ -226,6 +243,7 @@ IdOf(x) ==
                          \o "-" \o ToString(x.off) \o "-" \o ToString(x.lim)
     [] x.g = "range" -> "range-" \o ToString(x.lo) \o "-" \o ToString(x.hi) \o "-" \o ToString(x.rev) \o "-" \o ToString(x.lim) \o "-" \o ToString(x.asvar)
     [] x.g = "tablerow" -> "row-" \o ToString(x.len) \o "-" \o ToString(x.cols) \o "-" \o ToString(x.lim) \o "-" \o ToString(x.off)
+    [] x.g = "rowsig" -> "rowsig-" \o ToString(x.len) \o "-" \o ToString(x.cols) \o "-" \o ToString(x.at) \o "-" \o x.sig
     [] x.g = "coll" -> "coll-" \o x.coll
     [] x.g = "cycle" -> "cyc-" \o ToString(x.len) \o "-" \o ToString(x.nvals) \o "-" \o ToString(x.grouped) \o "-" \o ToString(x.twice)
     [] x.g = "cycnest" -> "cycnest-" \o ToString(x.outer) \o "-" \o ToString(x.len) \o "-" \o ToString(x.nvals) \o "-" \o ToString(x.grouped)
